@@ -1,7 +1,7 @@
 """C06 - HTTP announce/scrape parsing is total and faithful to the query."""
 PROP = {
     "glue": "G06", "chk": "chk06", "explain": "explain06",
-    "n": {"quick": 2400, "thorough": 120000},
+    "n": {"quick": 2400, "thorough": 30000},
     "driver_timeout": {"quick": 120, "thorough": 500},
     "rule": "cases = http.Request values built directly (arbitrary RequestURI bytes, header map, RemoteAddr) handed to the exported ParseAnnounce/ParseScrape; "
             "streams: boundary (port 0/1/65535/65536, numwant 0/max/max+1/2^32-1/2^32, counters 2^63/2^64-1/2^64, id lengths 0/1/19/20/21/40, corner URIs), "
